@@ -7,7 +7,7 @@
 From Coq Require Import ZArith NArith List Bool Lia Sorted.
 From DS.gen Require Import CpcTablesGen.
 From DS Require Import Word Murmur3 RunnerLib CpcDefs CpcTableProofs CpcBits CpcSketchInv CpcProofs
-     CpcCodecTables CpcCodecDefs CpcCodecProofs.
+     CpcCodecTables CpcCodecDefs CpcCodecProofs Regression_cpc.
 Import ListNotations.
 Local Open Scope N_scope.
 
@@ -120,6 +120,12 @@ Theorem C05_sliding_phase_lt16 : forall lg_k c, 4 <= lg_k -> 27 * 2 ^ lg_k <= 8 
   determine_pseudo_phase lg_k c < 16.
 Proof. exact sliding_phase_lt16. Qed.
 
+(* the OLD code (uint32 products, before fixes/05_cpc_pseudo_phase_overflow.patch) gives a SLIDING sketch a mid-range
+   pseudo phase >= 16, on which compress_sliding_flavor throws: witness lg_k = 20, C = 4296581 *)
+Theorem C05_old_pseudo_phase_refuted : exists lg_k c,
+  4 <= lg_k <= 26 /\ c < 2 ^ 32 /\ 27 * 2 ^ lg_k <= 8 * c /\ 16 <= determine_pseudo_phase_old lg_k c.
+Proof. exact pseudo_phase_old_refuted. Qed.
+
 (* non-vacuity: lg_k = 4, all 16 rows x columns 0..3 (64 coupons > 27K/8 = 54): the run goes through SPARSE,
    promotion, HYBRID, PINNED and one window move, and ends SLIDING with offset 1 *)
 Definition ex_rcs : list N := flat_map (fun c => map (fun r => rcp r c) [0;1;2;3;4;5;6;7;8;9;10;11;12;13;14;15]) [0;1;2;3].
@@ -151,3 +157,4 @@ Print Assumptions C05_pairs_codec_len.
 Print Assumptions C05_sliding_window_rt.
 Print Assumptions C05_surprising_values_rt.
 Print Assumptions C05_sliding_phase_lt16.
+Print Assumptions C05_old_pseudo_phase_refuted.
